@@ -116,8 +116,8 @@ def tree_xml(base, variant, energy, sensors):
   s0, s1 = o["scal"][0], o["scal"][-1]
   sections = (
     "<tendon>"
-    f'<fixed name="t0" limited="true" range="-0.3 0.25" stiffness="4" springlength="0.05 0.1"><joint joint="{s0}" coef="0.8"/><joint joint="{s1}" coef="-1.3"/></fixed>'
-    '<spatial name="t1" limited="true" range="0.1 0.55" stiffness="6" springlength="0.2"><site site="s1"/><site site="s3"/><site site="s4"/></spatial>'
+    f'<fixed name="t0" limited="true" range="-0.3 0.25" stiffness="4 1.5 -0.8" springlength="0.05 0.1"><joint joint="{s0}" coef="0.8"/><joint joint="{s1}" coef="-1.3"/></fixed>'
+    '<spatial name="t1" limited="true" range="0.1 0.55" stiffness="6 2.5 1.2" springlength="0.2"><site site="s1"/><site site="s3"/><site site="s4"/></spatial>'
     "</tendon>"
     "<actuator>"
     f'<motor name="a0" joint="{s0}" gear="1.3"/>'
